@@ -204,6 +204,17 @@ impl BigRat {
         }
     }
 
+    /// Formats as `numer/denom` (or just `numer` for integers), with
+    /// both written in the given base.
+    pub fn to_fraction_string(&self, base: u8) -> String {
+        let numer = self.inner.numer().to_str_radix(base as u32);
+        if self.inner.denom().is_one() {
+            numer
+        } else {
+            format!("{}/{}", numer, self.inner.denom().to_str_radix(base as u32))
+        }
+    }
+
     pub fn to_scientific(&self, base: u8, digits: Digits) -> (bool, String) {
         let num = self.numer();
         let den = self.denom();
@@ -253,7 +264,7 @@ impl BigRat {
         }
 
         if digits == Digits::Fraction {
-            return (true, format!("{}", self));
+            return (true, self.to_fraction_string(base));
         }
 
         let abs = self.abs();
